@@ -870,7 +870,11 @@ fn overfull_case(rng: &mut Rng, out: &mut Out, dir: &str, idx: u64) {
     };
     let n = rng.range(40, 240);
     let keys: Vec<Vec<u8>> = (0..n).map(|i| format!("of{}-{:04}", idx, i).into_bytes()).collect();
-    for k in &keys { let _ = store.insert(k, &pattern(k[k.len() - 1], *rng.pick(&[60usize, 200, 3000]))); }
+    let mut held: BTreeMap<Vec<u8>, Vec<u8>> = BTreeMap::new();
+    for k in &keys {
+        let v = pattern(k[k.len() - 1], *rng.pick(&[60usize, 200, 3000, 9000]));
+        if store.insert(k, &v).is_ok() { held.insert(k.clone(), v); }
+    }
     out.count("overfull device case");
     let step = |what: &str, f: Box<dyn FnOnce() + Send>| -> bool {
         let t0 = Instant::now();
@@ -886,9 +890,36 @@ fn overfull_case(rng: &mut Rng, out: &mut Out, dir: &str, idx: u64) {
         if !step("flush2", Box::new(move || { let _ = st.flush(); })) { stuck = Some("a second flush() on the full device"); }
     }
     if stuck.is_none() {
-        for k in keys.iter().skip(4) { let _ = store.delete(k); }
+        for k in keys.iter().skip(4) { if store.delete(k).is_ok() { held.remove(k); } }
         let st = store.clone();
         if !step("flush3", Box::new(move || { let _ = st.flush(); })) { stuck = Some("flush() after deletes made room on the full device"); }
+    }
+    // what the batches that ran out of space gave back must really be free again: a few more records go in, and then
+    // every key reads the value written for it - before and after a further flush (C08: genuine values only; C05: one
+    // owner per block)
+    if stuck.is_none() {
+        for i in 0..3u8 {
+            let k = format!("of{}-late-{}", idx, i).into_bytes();
+            let v = pattern(0x70 + i, *rng.pick(&[100usize, 3000, 5000]));
+            if store.insert(&k, &v).is_ok() { held.insert(k, v); }
+        }
+        for round in 0..2 {
+            let mut wrong: Option<String> = None;
+            for (k, v) in &held {
+                match store.get(k) {
+                    Ok(got) if &got == v => {}
+                    Ok(got) => { wrong = wrong.or(Some(format!("key {} reads {} bytes that are not its value ({} bytes written; first difference at byte {})", String::from_utf8_lossy(k), got.len(), v.len(), got.iter().zip(v.iter()).position(|(a, b)| a != b).unwrap_or(got.len().min(v.len()))))); }
+                    Err(e) => { wrong = wrong.or(Some(format!("key {} reads {} although it was written and never deleted", String::from_utf8_lossy(k), err_name(&e)))); }
+                }
+            }
+            if let Some(w) = wrong {
+                out.failures.push(format!("C08\toverfull device case {} ({} blocks, {} keys; flushes refused for space, room made, {}): {}\t-", idx, blocks, n, if round == 0 { "more records written" } else { "flushed again" }, w));
+                out.failures.push(format!("C05\toverfull device case {}: {}\t-", idx, w));
+                break;
+            }
+            let st = store.clone();
+            if !step("flush4", Box::new(move || { let _ = st.flush(); })) { stuck = Some("flush() after the device had been full"); break; }
+        }
     }
     match stuck {
         Some(what) => {
@@ -1304,22 +1335,46 @@ fn readflush_case(rng: &mut Rng, out: &mut Out, dir: &str, idx: u64) {
         })
     }).collect();
     let rounds = rng.range(200, 500);
-    let t0 = Instant::now();
-    for r in 0..rounds {
-        for (i, k) in keys.iter().enumerate() {
-            let len = sizes[(i + r as usize) % 4] + (r as usize % 17);
-            let _ = store.insert(k, &pattern(0x30 + i as u8, len));
-        }
-        let _ = store.flush();
-        // (several harness processes run side by side, each with its spinning readers: the case is bounded by time)
-        if t0.elapsed() > Duration::from_millis(600) { break; }
-    }
+    // the writer runs under the watchdog: a store whose insert or flush stops returning must not leave the readers spinning
+    let writer = {
+        let (st, keys) = (store.clone(), keys.clone());
+        std::thread::spawn(move || {
+            let t0 = Instant::now();
+            for r in 0..rounds {
+                for (i, k) in keys.iter().enumerate() {
+                    let len = sizes[(i + r as usize) % 4] + (r as usize % 17);
+                    let _ = st.insert(k, &pattern(0x30 + i as u8, len));
+                }
+                let _ = st.flush();
+                // (several harness processes run side by side, each with its spinning readers: the case is bounded by time)
+                if t0.elapsed() > Duration::from_millis(600) { break; }
+            }
+        })
+    };
+    let tw = Instant::now();
+    while !writer.is_finished() && tw.elapsed() < WATCHDOG { std::thread::sleep(Duration::from_millis(2)); }
+    let writer_stuck = !writer.is_finished();
     stop.store(true, O::Relaxed);
-    for h in readers { let _ = h.join(); }
+    let tr = Instant::now();
+    let mut reader_stuck = false;
+    for h in readers {
+        while !h.is_finished() && tr.elapsed() < WATCHDOG { std::thread::sleep(Duration::from_millis(1)); }
+        if h.is_finished() { let _ = h.join(); } else { reader_stuck = true; }
+    }
+    if reader_stuck {
+        out.failures.push(format!("C18\tread / flush case {}: a read racing with the flush of its key did not return within {:?}\t-", idx, WATCHDOG));
+        std::mem::forget(store);
+        return;
+    }
     *out.hist.entry("read / flush: racing reads".into()).or_insert(0) += reads.load(O::Relaxed);
     for b in bad.lock().unwrap().iter() {
         out.failures.push(format!("C20\tread / flush case {}: {}\t-", idx, b));
         out.failures.push(format!("C08\tread / flush case {}: {}\t-", idx, b));
+    }
+    if writer_stuck {
+        out.failures.push(format!("C18\tread / flush case {}: insert() / flush() of keys that are being read did not return within {:?}\t-", idx, WATCHDOG));
+        std::mem::forget(store);
+        return;
     }
     report_inv(out, &store, None, "after a read / flush case");
     let st = store.clone();
@@ -1849,6 +1904,9 @@ fn main() {
     }
     for i in 0..get("sweeps", 0) {
         sweep_race_case(&mut rng, &mut out, &ctl, &args.out, i);
+    }
+    for i in 0..get("overfull", 0) {
+        overfull_case(&mut rng, &mut out, &args.out, 1000 + i);
     }
     for i in 0..get("contend", 0) {
         if i % 5 == 0 { overfull_case(&mut rng, &mut out, &args.out, i); }
